@@ -1,7 +1,7 @@
-import ElvisVerif.Lemmas.TcpRelSys
+import ElvisVerif.Lemmas.TcpRelSys2
 import ElvisVerif.Props.C01Converge
 /-!
-# C03 — release after both applications close (partial: simultaneous close from a `Done` state)
+# C03 — release after both applications close (partial: simultaneous and sequential close from a `Done` state)
 
 `releaseRound` (`Lemmas/TcpRelSys.lean`) = `close A`, `close B`, two exchange phases (`emit A`, `emit B`, delivery of
 everything just emitted to its addressee, `read A`, `read B`), `tick A (2·MSL + 1)`, `tick B (2·MSL + 1)`.
@@ -35,7 +35,8 @@ theorem quiet_of_done {iss : SideId → Seq} {s : Sys} (hg : Good iss s) (ta tb 
     The 2·MSL timer is armed when the ACK of the own FIN arrives, so the bound of DESIGN.md section 8
     (`2·MSL + RTO` after the second `close()`) holds with room: no retransmission is needed.
     NOT proved: release from arbitrary reachable states / arbitrary fair schedules (`close()` with data in
-    flight, after loss, one side closing first); it stays evaluated by the release oracle of `./check C03`. -/
+    flight or after loss); it stays evaluated by the release oracle of `./check C03`.  The other order of
+    closes: `c03_release_sequential_partial`. -/
 theorem c03_release_simultaneous_partial (ia ib : Seq) (ma mb : U16) (simultaneous : Bool) (sys0 s : Sys)
     (rs : List Res) (hma : SPACE_FOR_HEADERS ≤ ma.toNat) (hmb : SPACE_FOR_HEADERS ≤ mb.toNat)
     (h0 : Sys.run {} [.open .A ia ma, if simultaneous then .open .B ib mb else .listen .B ib mb] = .ok (sys0, rs))
@@ -48,6 +49,32 @@ theorem c03_release_simultaneous_partial (ia ib : Seq) (ma mb : U16) (simultaneo
   obtain ⟨qa, qb⟩ := quiet_of_done hg ta tb hd
   obtain ⟨d1, d2⟩ := done_stream hg ta tb hd
   obtain ⟨s', e, r, na, nb, sa, sb, da, db, hl⟩ := release_simultaneous s ta tb hd.steady.ha hd.steady.hb qa qb
+  have sa' : s'.a.submitted = s.a.submitted := sa
+  have sb' : s'.b.submitted = s.b.submitted := sb
+  have da' : s'.a.delivered = s.a.delivered := da
+  have db' : s'.b.delivered = s.b.delivered := db
+  exact ⟨s', e, r, na, nb, by rw [db', sa']; exact d1, by rw [da', sb']; exact d2, sa', sb', hl⟩
+
+/-- **Release after a sequential close** (`_partial`: starting state and schedule fixed).  From every
+    reachable `Done` state: A's application closes; two exchange phases later A is in FIN-WAIT-2 and B, whose
+    application has seen the end of the stream, in CLOSE-WAIT; B's application closes (LAST-ACK); two more
+    exchange phases: A is in TIME-WAIT and **B's TCB is deleted by A's ACK of its FIN**
+    (`ProcessSegmentResult::FinalizeClose`); when `2·MSL` (+ 1 ms) have passed on A's side **A's TCB is deleted** by
+    the TIME-WAIT timeout.  No step panics, exactly four segments are exchanged (FIN, ACK, FIN, ACK), the
+    streams are untouched.  `releaseRoundSeq` = `close A`, phase, phase, `close B`, phase, phase,
+    `tick A (2·MSL + 1)` (`Lemmas/TcpRelSys2.lean`). -/
+theorem c03_release_sequential_partial (ia ib : Seq) (ma mb : U16) (simultaneous : Bool) (sys0 s : Sys)
+    (rs : List Res) (hma : SPACE_FOR_HEADERS ≤ ma.toNat) (hmb : SPACE_FOR_HEADERS ≤ mb.toNat)
+    (h0 : Sys.run {} [.open .A ia ma, if simultaneous then .open .B ib mb else .listen .B ib mb] = .ok (sys0, rs))
+    (hrun : PlainRun sys0 s) (h31 : RoomH s) (ta tb : Tcb) (hd : Done s ta tb) :
+    ∃ s', releaseRoundSeq s = .ok s' ∧ FinRun s s' ∧ s'.a.tcb = none ∧ s'.b.tcb = none ∧
+      s'.b.delivered = s'.a.submitted ∧ s'.a.delivered = s'.b.submitted ∧
+      s'.a.submitted = s.a.submitted ∧ s'.b.submitted = s.b.submitted ∧
+      s'.historyLen = s.historyLen + 4 := by
+  have hg := good_of_reach ia ib ma mb simultaneous sys0 s rs hma hmb h0 hrun h31
+  obtain ⟨qa, qb⟩ := quiet_of_done hg ta tb hd
+  obtain ⟨d1, d2⟩ := done_stream hg ta tb hd
+  obtain ⟨s', e, r, na, nb, sa, sb, da, db, hl⟩ := release_sequential s ta tb hd.steady.ha hd.steady.hb qa qb
   have sa' : s'.a.submitted = s.a.submitted := sa
   have sb' : s'.b.submitted = s.b.submitted := sb
   have da' : s'.a.delivered = s.a.delivered := da
@@ -77,7 +104,8 @@ theorem c03_converge_then_release_partial (ia ib : Seq) (ma mb : U16) (simultane
     reachable state in which both TCBs exist and have left SYN-SENT (`close()` in SYN-SENT is a no-op in
     this code), some fair round followed by `2·MSL + RTO` of virtual time deletes both TCBs.  Missing: the
     convergence argument of `Props/C01Converge.lean` for the closing states (FIN-WAIT-1 / CLOSING / LAST-ACK keep
-    segmentizing and retransmitting), and the sequential close (FIN-WAIT-2 / CLOSE-WAIT / LAST-ACK) path. -/
+    segmentizing and retransmitting).  Proved: the two fair schedules `releaseRound` (simultaneous close) and
+    `releaseRoundSeq` (A first, B after the end of stream) from `Done` states. -/
 def C03ReleaseStatement : Prop :=
   ∀ (ia ib : Seq) (ma mb : U16) (simultaneous : Bool) (sys0 s : Sys) (rs : List Res) (ta tb : Tcb),
     SPACE_FOR_HEADERS ≤ ma.toNat → SPACE_FOR_HEADERS ≤ mb.toNat →
@@ -108,6 +136,24 @@ def releaseCheck : Bool :=
         | .error _ => false)
     | none => false
   | .error _ => false
+
+def releaseSeqCheck : Bool :=
+  match Sys.run {} [.open .A 1000 1500, .listen .B 5000 1500] with
+  | .ok (sys0, _) =>
+    match plainRunB sys0 convOps with
+    | some s =>
+      (match fairRound 3 s with
+        | .ok s' =>
+          (match releaseRoundSeq s' with
+            | .ok s'' => s''.a.tcb.isNone && s''.b.tcb.isNone && s''.b.delivered == [1, 2, 3] &&
+                s''.a.delivered == [9, 8] && s''.historyLen == 11
+            | .error _ => false)
+        | .error _ => false)
+    | none => false
+  | .error _ => false
+
+/-- the sequential close evaluated on the same reachable state -/
+example : releaseSeqCheck = true := by decide
 
 /-- the chain evaluated on the reachable state of the example of `c01_converges_partial`: the fair round
     delivers `[1, 2, 3]` and `[9, 8]`, `releaseRound` then deletes both TCBs; 11 segments in all
